@@ -973,6 +973,15 @@ func (ex *Exec) fireTimer(tm *vtimer) {
 	if ex.TraceOn {
 		ex.Trace = append(ex.Trace, fmt.Sprintf("TIMER %s fires (clock=%dms)", tm.name, ex.Clock/1e6))
 	}
+	// the fire event is an observation the oracles order against harness events
+	ex.Log = append(ex.Log, Event{Thread: -1, Msg: "timer:fire:" + tm.name, Step: ex.Steps})
+	if ex.useHB {
+		o := ex.objs.get(ObjLog)
+		ex.objSum -= o.key()
+		o.lastW = mix3(o.lastW, 0xf12e, uint64(tm.id))
+		o.readers = 0
+		ex.objSum += o.key()
+	}
 	tm.fire()
 	ex.progress(nil)
 }
